@@ -100,7 +100,7 @@ def run(ctx):
             inrange, mrows = v[1][0], v[1][1]
             if inrange != 'true':
                 notrange += 1
-                tie = tie or 'premise reads_in_range of C10_batched_expected_data_partial is false on a generated model'
+                tie = tie or 'cross-check of C10_reads_in_range_accepted (reads_in_range) is false on a generated model'
                 ctx.coverage.setdefault('first_disagreement', dict(case=cases[i], what='reads_in_range = false'))
             mexp = [[engine.F(x) for x in r] for r in mrows]
             d = [dd for a, b in zip(impls[i]['ab'], mexp) for dd in engine.diff_vec('row', a, b)]
